@@ -25,7 +25,7 @@ for sid in sorted(os.listdir(INC)):
         continue
     dst = os.path.join(ROOT, "seeded", sid)
     os.makedirs(dst, exist_ok=True)
-    for f in ("patch.diff", "demo_test.rs", "notes.md", "where.txt", "run.txt", "confirm.txt"):
+    for f in ("patch.diff", "demo_test.rs", "demo.diff", "notes.md", "where.txt", "run.txt", "confirm.txt"):
         if os.path.exists(os.path.join(src, f)):
             shutil.copy(os.path.join(src, f), os.path.join(dst, f))
     notes = open(os.path.join(src, "notes.md")).read() if os.path.exists(os.path.join(src, "notes.md")) else ""
@@ -39,7 +39,7 @@ for sid in sorted(os.listdir(INC)):
         "property_title": props[pid]["title"],
         "change": title,
         "what_it_needs": needs(notes),
-        "demonstration": {"file": "demo_test.rs", "place_at": open(os.path.join(src, "where.txt")).read().strip(),
+        "demonstration": {"file": "demo.diff (git apply; adds a #[test] to the named source file)" if os.path.exists(os.path.join(src, "demo.diff")) else "demo_test.rs", "place_at": open(os.path.join(src, "where.txt")).read().strip(),
                           "run": open(os.path.join(src, "run.txt")).read().strip(),
                           "expect": "fails with patch.diff applied, passes without"},
         "what_i_ran": {
